@@ -63,3 +63,9 @@ func IsInheritanceCycle(class ClassNode, parent ClassNode) bool {
 
 	return reaches(parent)
 }
+
+// IsDescendantOf reports whether ancestor is class itself or one of its
+// ancestors (superclasses and modules, at any distance).
+func IsDescendantOf(class ClassNode, ancestor ClassNode) bool {
+	return IsInheritanceCycle(ancestor, class)
+}
